@@ -3,13 +3,38 @@
 CONF = dict(
     cmd='c17',
     props='Props/C17.v',
-    rule='(filled in below)',
-    assumptions=[],
-    trusted=[],
-    technique='',
-    level_text='',
-    level_note='',
-    explanation='',
+    rule=('histories of Do/Reset calls on the real filters. LuckyPacketFilter: capacities 1..16, pick 1..20 (also > capacity), the unconfigured filter, 1..200 samples, '
+ 'Reset at random positions (also doubled), round-trip delays pairwise distinct (random injection into a spread with step 1/2/1000/999983 ns) or tied (3 values, compared '
+ 'relationally), offsets from +-5 ns to +-2^61 ns, odd/even delays, server processing times, occasional wild timestamps (up to +-2^58 s, saturating Time.Sub). '
+ 'NtimedFilter: 1..200 samples of a delay process (base 500 ns..50 ms, jitter 0..50 %, drift) with one-sided (out or back), two-sided and unusually-fast outliers, '
+ 'denser at the 3rd/4th sample after a reset point; explicit Reset, clock-epoch changes (+1, -1, wrap-around, random) and both at random positions; a registered fake '
+ 'clock provides Epoch(); every stretch between reset points is also replayed on a new filter. Non-trivial: lucky history with capacity >= 2 that evicted from the window or '
+ 'contains a Reset; Ntimed history in which the filter replaced the midpoint (branch 2 or 3, read from its debug record) or with >= 4 samples after a reset point; '
+ 'distinct = distinct (kind, input)'),
+    assumptions=['float64 arithmetic of Go on amd64 = IEEE-754 binary64 round-to-nearest-even without FMA contraction, math.Sqrt = correctly rounded SQRTSD (Flocq '
+ 'BinarySingleNaN); int64(float64) = CVTTSD2SQ (-2^63 when out of range)',
+ 'slices.SortFunc returns a sorted permutation (its contract); the lucky-packet selection theorem is proved for every such permutation under pairwise distinct delays '
+ '(the property\'s quantifier); tied delays are only compared relationally',
+ 'time.Time as unbounded nanoseconds, Time.Sub saturating; lucky-packet oracle for offsets below 2^62 ns (no int64 wrap in the even-count midpoint); '
+ 'numeric closeness of the Ntimed raw offset for one-way differences below 2^62 ns, tolerance 2 ns + 2^-50 relative',
+ 'the epoch the filter sees is what the registered clock reports during the call (fake clock scripted per call)'],
+    trusted=['Flocq 4 (IEEE754.BinarySingleNaN) as the float64 semantics; theorems about the Ntimed model depend on the four standard-library axioms Flocq uses; the '
+ 'lucky-packet theorems are closed under the global context',
+ 'modelled, not verified: slices.SortFunc (pdqsort) by contract, time.Time.Sub/Duration.Seconds, math.Sqrt, Go float<->int conversions, log/slog (used for coverage '
+ 'tags only, never compared)'],
+    technique=('Coq proofs over a Gallina model of LuckyPacketFilter (window shift, sort by delay, truncate, sort by offset, median) and NtimedFilter (bit-exact binary64 via '
+ 'Flocq): rank-based characterisation of the k lowest-delay samples proved equal to firstn k of every strictly sorted permutation, induction over Do/Reset histories with '
+ 'the invariant "state = last N samples since the last reset", counter invariant navg = float(min(n,20)) for the warm-up clause, case analysis of the branch selection, '
+ 'state-independence of a step at a reset point; differential execution of the extracted model against the exported filters with a registered fake clock'),
+    level_text=('Theorems quantify over all capacities, pick counts, histories, reset/epoch-change positions, timestamps (unbounded Z with Go\'s saturation/wrap written out) and, '
+ 'for the selection rule, over every sorted permutation the unstable sort may produce. The Ntimed model is compared bit-for-bit (in ns) with the Go filter on every run; the '
+ 'property oracle (selection-rule value; raw offset within float rounding and of the right sign on the first three samples after a reset point and on samples within the '
+ 'learned bounds; outputs equal to those of new filters started at every reset point) is evaluated on the implementation\'s outputs'),
+    level_note=('Partial: the numeric clause |raw_f - ClockOffset| <= 2 ns + 2^-50 relative, same sign (C17_ntimed_oracle_partial) is a hypothesis of the oracle theorem, not a '
+ 'proved Flocq error bound; it is enforced by the oracle on every observed output. "Within the learned bounds" is evaluated with the limits of the model state. Tied '
+ 'round-trip delays (outside the property\'s quantifier) are accepted by an executable relation (some choice among the tied samples) without a soundness theorem.'),
+    explanation=('C17_lucky_spec/_oracle: for all histories the configured filter returns the median offset of the min(k,N) lowest-delay samples of the last N since Reset; '
+ 'C17_ntimed_raw_young/_within: raw offset during warm-up and within bounds; C17_ntimed_reset/_restart: outputs after a reset point are those of a new filter.'),
     timeout_quick=600,
     timeout_thorough=3000,
 )
